@@ -66,6 +66,20 @@ def run(ctx):
             detail = f'handler body: {"; ".join(src(s) for s in h.body)}'
         ctx.ob('R15.1', 'run:handler', f'{f.mod.relpath}:{t.lineno}',
                'a handler catches RecursionError and raises SQLParseError', ok, detail)
+        # the handler itself runs with an almost exhausted stack: it must not call a recursive routine
+        rec0 = cg.recursive_functions()
+        for h in catching[:1]:
+            for call, callees in cg.sites.get(f.qname, []):
+                if not any(n is call for n in ast.walk(h)):
+                    continue
+                reach = set()
+                for c in callees:
+                    reach |= cg.reachable([c])
+                hit = sorted(reach & rec0)
+                ctx.ob('R15.1', f'run:handler-call:{src(call.func)}', f'{f.mod.relpath}:{call.lineno}',
+                       f'`{src(call)[:50]}` in the RecursionError handler cannot recurse', not hit,
+                       f'reaches recursive {hit[0].replace("sqlparse.", "") if hit else ""}: on the deeply nested statement that caused the error this raises '
+                       'RecursionError again, from inside the handler, and it escapes untranslated')
         # the yield is inside the try (a generator resumed after yield continues inside it)
         ys = [n for n in ast.walk(f.node) if isinstance(n, (ast.Yield, ast.YieldFrom))]
         in_try = all(any(n is y for b in t.body for n in ast.walk(b)) for y in ys)
